@@ -1038,6 +1038,32 @@ func (x *Exec) rangeStmt(s *ast.RangeStmt, st *State, cs []*ctl, label string) [
 	if s.Value != nil {
 		valVar = bindVar(s.Value)
 	}
+	// `for part := range strings.SplitSeq(s, sep)`: the iterator yields, in
+	// order, exactly the elements strings.Split(s, sep) returns; the loop is
+	// executed as a range over that slice (the single loop variable is the
+	// element). The laziness of the iterator is not observable here: Split
+	// is pure.
+	var seqSlice *Sl
+	if call, ok := unparen(s.X).(*ast.CallExpr); ok && s.Value == nil {
+		if fn := x.calleeOf(call); fn != nil && fn.Pkg() != nil && fn.Pkg().Path() == "strings" && fn.Name() == "SplitSeq" {
+			if sp := x.eng.typesPkg("strings"); sp != nil {
+				if split, _ := sp.Scope().Lookup("Split").(*types.Func); split != nil {
+					if c := x.eng.contractFor(split); c != nil {
+						var args []Value
+						for i, a := range call.Args {
+							args = append(args, x.exprT(a, st, split.Type().(*types.Signature).Params().At(i).Type()))
+						}
+						resT := split.Type().(*types.Signature).Results().At(0).Type()
+						if sl, ok := x.applyContract(call, st, split, c, nil, args, resT).(Sl); ok {
+							seqSlice = &sl
+							xt = resT
+							valVar, keyVar = keyVar, nil
+						}
+					}
+				}
+			}
+		}
+	}
 	itName := fmt.Sprintf("it%d", ord)
 	idxII := intInfo{64, true}
 
@@ -1050,7 +1076,12 @@ func (x *Exec) rangeStmt(s *ast.RangeStmt, st *State, cs []*ctl, label string) [
 		nv := x.scalar(x.expr(s.X, st))
 		n = x.ar.convert(nv, ii, idxII)
 	} else {
-		cv := x.expr(s.X, st)
+		var cv Value
+		if seqSlice != nil {
+			cv = *seqSlice
+		} else {
+			cv = x.expr(s.X, st)
+		}
 		switch u := xt.Underlying().(type) {
 		case *types.Slice:
 			sl := cv.(Sl)
